@@ -83,7 +83,7 @@ PROPS = {
     "C02": dict(
         level_text="The flag laws are theorems of RoundOnce checked by TLC (MC_Round!FlagThm); every recorded arithmetic event's decided condition bits must equal the spec's, with the stated implications; AlgQuo's pinned 'no sticky digit' variant is a negative control.",
         mc=[("MC_Round", None), ("MC_AlgQuo", "MC_AlgQuo_nosticky", "expect-violation")],
-        drivers=["arithS", "arithL", "intS", "roots", "vectors:add,sub,mul,quo,quoint,rem,round,quantize,tointx,reduce,sqrt,abs,neg"],
+        drivers=["arithS", "arithL", "intS", "roots", "tableedge", "vectors:add,sub,mul,quo,quoint,rem,round,quantize,tointx,reduce,sqrt,abs,neg"],
         attr=attr_c02,
         rule="flag conjuncts of every recorded arithmetic event: decided bits equal the spec's, Inexact=>Rounded, "
              "Overflow=>Inexact, Underflow=>Subnormal&Inexact, no bit outside the 12 conditions",
